@@ -321,4 +321,111 @@ theorem bf_length_refines (norm : List K → K) (fuel : Nat) (ids pids : List In
   rw [hs]
   simp [Py.finish]
 
+/-! ### `BranchFeatures.calc_angle` -/
+
+/-- the vector of a branch as `calc_angle` forms it: `xyz[br[-1]] − xyz[br[0]]` (from the FIRST to the LAST node of the branch) -/
+def bvec (axyz : List (List K)) (b : List Int) : List K := RefineNf.vec axyz (b.headD 0) (b.getLastD 0)
+/-- dot product as `np.matmul` forms it (sequential sum of the products) -/
+def dotK (a b : List K) : K := Py.Nf.sumK (List.zipWith (fun x y => x * y) a b)
+/-- `np.clip(x, -1, 1)` -/
+def clip1 (x : K) : K := let y := if x < (0 : K) - (1 : K) then (0 : K) - (1 : K) else x; if (1 : K) < y then (1 : K) else y
+/-- the divisor of entry (i, j): the 1×1 matrix product of the two norms, plus `eps` -/
+def angDen (norm : List K → K) (axyz : List (List K)) (eps : K) (bi bj : List Int) : K :=
+  Py.Nf.sumK [norm (bvec axyz bi) * norm (bvec axyz bj)] + eps
+
+theorem mapOpt_zip_map {α β γ δ : Type} (f : β × γ → Option δ) (a : α → β) (b : α → γ) (g : α → δ) : ∀ l : List α,
+    (∀ x ∈ l, f (a x, b x) = some (g x)) → Py.mapOpt f (List.zip (l.map a) (l.map b)) = some (l.map g) := by
+  intro l
+  induction l with
+  | nil => intro _; rfl
+  | cons x xs ih =>
+    intro h
+    have := ih (fun y hy => h y (List.mem_cons_of_mem _ hy))
+    simp [Py.mapOpt, h x List.mem_cons_self, this]
+
+theorem matmulT_tab (a b : List (List K)) (d : Nat) (ha : ∀ r ∈ a, r.length = d) (hb : ∀ r ∈ b, r.length = d) :
+    Py.Nf.matmulT a b = some (a.map fun r => b.map fun c => dotK r c) := by
+  unfold Py.Nf.matmulT
+  apply Py.mapOpt_total
+  intro r hr
+  apply Py.mapOpt_total
+  intro c hc
+  simp [Py.Nf.dot, dotK, ha r hr, hb c hc]
+
+theorem div2_tab {α : Type} (F : Py.Fld K) (l : List α) (f h : α → α → K) (hne : ∀ x ∈ l, ∀ y ∈ l, h x y < 0 ∨ 0 < h x y) :
+    Py.Nf.div2 (l.map fun x => l.map (f x)) (l.map fun x => l.map (h x))
+      = some (l.map fun x => l.map fun y => F.div (f x y) (h x y)) := by
+  simp only [Py.Nf.div2, List.length_map, if_true]
+  apply mapOpt_zip_map
+  intro x hx
+  simp only [List.length_map, if_true]
+  apply mapOpt_zip_map
+  intro y hy
+  simp [Py.fdiv, hne x hx y hy]
+
+/-- a branch whose first and last node are rows of the table with `d` coordinates -/
+def GoodBr (axyz : List (List K)) (d : Nat) (b : List Int) : Prop :=
+  b ≠ [] ∧ RefineNf.Valid axyz (b.headD 0) ∧ RefineNf.Valid axyz (b.getLastD 0) ∧
+  (RefineNf.row axyz (b.headD 0)).length = d ∧ (RefineNf.row axyz (b.getLastD 0)).length = d
+
+theorem idx_first_last (b : List Int) (hb : b ≠ []) : Py.idx b (-1) = some (b.getLastD 0) ∧ Py.idx b 0 = some (b.headD 0) := by
+  obtain ⟨t, z, rfl⟩ : ∃ t z, b = t ++ [z] := ⟨b.dropLast, b.getLast hb, (List.dropLast_append_getLast hb).symm⟩
+  have hl : (t ++ [z]).getLastD 0 = z := by simp [List.getLastD_eq_getLast?]
+  rw [hl]
+  cases t <;> simp [Py.idx, Py.normIdx]
+
+theorem angle_loop (F : Py.Fld K) (norm : List K → K) (acos : K → K) (axyz : List (List K)) (d : Nat) :
+    ∀ (brs : List (List Int)) (v : nf_calc_angle.V K), v.axyz = axyz → (∀ b ∈ brs, GoodBr axyz d b) →
+    ∃ b', Py.forEach (nf_calc_angle.for1 F norm acos) brs v = .next { v with br := b', c0_ := v.c0_ ++ brs.map (bvec axyz) } := by
+  intro brs
+  induction brs with
+  | nil => intro v _ _; exact ⟨v.br, by simp [Py.forEach]⟩
+  | cons x xs ih =>
+    intro v hv h
+    subst hv
+    obtain ⟨hne, v0, v1, d0, d1⟩ := h x List.mem_cons_self
+    obtain ⟨i1, i0⟩ := idx_first_last x hne
+    obtain ⟨b', hs⟩ := ih { v with br := x, c0_ := v.c0_ ++ [bvec v.axyz x] } rfl (fun s hs => h s (List.mem_cons_of_mem _ hs))
+    refine ⟨b', ?_⟩
+    simp only [Py.forEach, nf_calc_angle.for1, Py.bind, i1, i0, RefineNf.idx_row _ _ v0, RefineNf.idx_row _ _ v1, Py.Nf.subVec, d0, d1,
+      if_true]
+    simp only [bvec, RefineNf.vec] at hs
+    rw [hs]; simp [bvec, RefineNf.vec]
+
+/-- **`BranchFeatures.calc_angle` as translated**: entry (i, j) of the result is `acos` of the clipped quotient of the dot product of the two
+branch vectors (each from the branch's FIRST node to its LAST node: `br[-1].xyz() − br[0].xyz()`) by the product of their norms plus `eps`,
+exactly as the source writes it (the product of the norms is formed as a 1×1 matrix product, `eps` is added to the divisor, the quotient is
+clipped to [−1, 1]); a zero divisor raises.  Every list of branches (each with valid end rows), no size bound. -/
+theorem calc_angle_refines (F : Py.Fld K) (norm : List K → K) (acos : K → K) (axyz : List (List K)) (d : Nat) (brs : List (List Int)) (eps : K)
+    (hg : ∀ b ∈ brs, GoodBr axyz d b)
+    (hne : ∀ bi ∈ brs, ∀ bj ∈ brs, angDen norm axyz eps bi bj < 0 ∨ 0 < angDen norm axyz eps bi bj) :
+    nf_calc_angle F norm acos axyz brs eps
+      = some (brs.map fun bi => brs.map fun bj =>
+          acos (clip1 (F.div (dotK (bvec axyz bi) (bvec axyz bj)) (angDen norm axyz eps bi bj)))) := by
+  obtain ⟨b', hs⟩ := angle_loop F norm acos axyz d brs
+    { (default : nf_calc_angle.V K) with axyz := axyz, branches := brs, eps := eps, c0_ := [] } rfl hg
+  have hvd : ∀ r ∈ brs.map (bvec axyz), r.length = d := by
+    intro r hr
+    simp only [List.mem_map] at hr
+    obtain ⟨b, hb, rfl⟩ := hr
+    obtain ⟨_, _, _, d0, d1⟩ := hg b hb
+    simp only [bvec, RefineNf.vec, List.length_zipWith, d0, d1, Nat.min_self]
+  have hm1 := matmulT_tab (brs.map (bvec axyz)) (brs.map (bvec axyz)) d hvd hvd
+  have hn1 : ∀ r ∈ Py.Nf.normRowsKeep norm (brs.map (bvec axyz)), r.length = 1 := by
+    intro r hr
+    simp only [Py.Nf.normRowsKeep, List.mem_map] at hr
+    obtain ⟨_, _, rfl⟩ := hr
+    rfl
+  have hm2 := matmulT_tab _ _ 1 hn1 hn1
+  have hd := div2_tab F brs (fun bi bj => dotK (bvec axyz bi) (bvec axyz bj))
+    (fun bi bj => Py.Nf.sumK [norm (bvec axyz bi) * norm (bvec axyz bj)] + eps) hne
+  simp only [nf_calc_angle, nf_calc_angle.body, Py.seq, Py.bindS, Py.bind]
+  rw [hs]
+  simp only [List.nil_append, hm1, hm2]
+  simp only [Py.Nf.normRowsKeep, Py.Nf.addScalar2, List.map_map, Function.comp_def, dotK, List.zipWith_cons_cons, List.zipWith_nil_right] at hd ⊢
+  rw [hd]
+  simp [Py.finish, Py.Nf.clip2, Py.Nf.map2, clip1, List.map_map, Function.comp_def, angDen, dotK]
+  intro a _ b _
+  congr
+
 end RefineNf2
